@@ -628,6 +628,31 @@ def h_ac_iter(prop, case, facts, kind="dfa", n=4, timeout=1500, which="iter"):
 
 
 
+def h_ac_meta(prop, case, facts, kind="dfa", timeout=900):
+    name = "h_acmeta_%s_%s" % (case.name, kind)
+    body = "    let ac = %s;\n    let a = <%s as Case>::%s();\n    t::ac_meta::<%s, _>(&ac, &a);\n    core::mem::forget(ac);\n    core::mem::forget(a);" % (
+        ac_ctor(case, kind), case.mod, kind, case.mod)
+    meta = dict(template="ac_meta", replay_template="ac_meta", kind=kind,
+                symbolic=["pattern id", "anchoring", "two input bytes", "match index"])
+    f = facts[case.name]
+    mx = max([st[1] for st in f["nnfa_states"] if not st[2] and st[0] > 1 and st[1] <= 16] + [st[3] for st in f["nnfa_states"]] + [1])
+    unwind = max(len(case.pats) + 1, case.maxlen + 2, mx + 2, 8)
+    unsat = set()
+    return Harness(name, case, body, unwind, [], meta, timeout=timeout, covers_required=False,
+                   functions=["AhoCorasick::{patterns_len,min_pattern_len,max_pattern_len,match_kind,start_kind}",
+                              "impl Automaton for Arc<dyn AcAutomaton> (every forwarder)"] + F_KIND[kind], unsat_ok=unsat)
+
+
+def h_ac_stream_init(prop, case, facts, kind="dfa", timeout=900):
+    name = "h_acsinit_%s_%s" % (case.name, kind)
+    body = "    let ac = %s;\n    t::ac_stream_init::<%s, 1>(&ac);\n    core::mem::forget(ac);" % (ac_ctor(case, kind), case.mod)
+    meta = dict(template="ac_stream_init", replay_template="ac_meta", kind=kind, spare=1,
+                note="base case of the stream induction through the top-level searcher: buffer minimum via the Arc<dyn> forwarder")
+    return Harness(name, case, body, max(base_unwind(case, facts, 2), 6), [], meta, timeout=timeout, covers_required=False,
+                   functions=["AhoCorasick::try_stream_find_iter", "StreamChunkIter::new", "Buffer::new",
+                              "<Arc<dyn AcAutomaton> as Automaton>::max_pattern_len"])
+
+
 def h_std_struct(prop, case, facts, group=64, timeout=900):
     """Textbook-automaton check of the standard-semantics DFA, all states."""
     f = facts[case.name]
@@ -953,6 +978,10 @@ def _schedule(prop, tier, seed):
                         h = h_ac_iter(prop, c, facts, "dfa", n=3, which="iter", timeout=3000)
                         h.mem_gb = 28
                         hs.append(h)
+                if prop == "C04" and ("basic" in c.name or "empty" in c.name or c.name.endswith("_un") or c.name.endswith("_an")):
+                    # getters and Arc<dyn> forwarders of the top-level searcher vs the wrapped automaton
+                    for kind in ("dfa", "cnfa") + (("nnfa",) if (c.mk == "std" and not quick) else ()):
+                        hs.append(h_ac_meta(prop, c, facts, kind))
                 if prop == "C16" and c.sk in ("both", "un") and (not quick or "basic" in c.name or "empty" in c.name or "dd" in c.name):
                     hs.append(h_recipe(prop, c, facts, "dfa", n=6 if quick else 8))
             return hs
@@ -1159,6 +1188,10 @@ def _schedule(prop, tier, seed):
                 if prop in ("C07", "C08"):
                     for spare in ((1, 2) if (core or not quick) else (1,)):
                         hs.append(h_stream_step(prop, c, facts, "dfa", t=c.maxlen + spare + 2, spare=spare))
+                    if c.maxlen >= 2:
+                        # streams shorter than the longest pattern: the first fill hits the end of the
+                        # data with fewer than `min` bytes buffered (seeded change C08b lives there)
+                        hs.append(h_stream_step(prop, c, facts, "dfa", t=c.maxlen - 1, spare=1))
                     if not quick:
                         hs.append(h_stream_step(prop, c, facts, "dfa", t=c.maxlen + 5, spare=3, timeout=2400))
                         hs.append(h_stream_step(prop, c, facts, "cnfa", t=c.maxlen + 2, spare=1, timeout=2400))
@@ -1167,6 +1200,11 @@ def _schedule(prop, tier, seed):
                                       max(base_unwind(c, facts, 2), 6), [], dict(template="stream_init", kind="dfa", spare=1,
                                       note="the constructor's state is the base case of the stream induction"),
                                       timeout=600, covers_required=False, functions=["Automaton::try_stream_find_iter", "StreamChunkIter::new", "Buffer::new"]))
+                if prop == "C07":
+                    # the same base case through the top-level searcher (buffer minimum via the forwarder)
+                    hs.append(h_ac_stream_init(prop, c, facts, "dfa"))
+                    if "aab" in c.name or not quick:
+                        hs.append(h_ac_meta(prop, c, facts, "dfa"))
                 if prop == "C07" and not quick:
                     # complete runs through the constructor: > 24 GB / 25 min at T=3 (measured); T=2 in thorough
                     h = h_stream_run(prop, c, facts, "dfa", t=2, timeout=3000)
